@@ -50,6 +50,7 @@ type Obs struct {
 	RunRes   string  `json:"run,omitempty"`
 	Rpanic   string  `json:"rpanic,omitempty"`
 	Rline    int     `json:"rline,omitempty"`
+	Pms      float64 `json:"pms,omitempty"` // wall time of lex+parse in milliseconds
 	exit     bool    // the case left a runaway goroutine behind: the worker exits after reporting it
 }
 
@@ -253,6 +254,7 @@ func observe(c Case) Obs {
 		budget = 2 * time.Second
 	}
 	ch := make(chan parsed, 1)
+	t0 := time.Now()
 	go func() { ch <- parseOnly(src, c.Mode) }()
 	var pd parsed
 	select {
@@ -262,6 +264,7 @@ func observe(c Case) Obs {
 		o.exit = true
 		return o
 	}
+	o.Pms = float64(time.Since(t0).Microseconds()) / 1000.0
 	r := pd.res
 	o.Parse, o.Perr, o.Pline, o.Pcol, o.Ppanic, o.Nstmt = r.state, r.perr, r.pline, r.pcol, r.ppanic, r.nstmt
 	if !c.Run || r.state != "ok" {
